@@ -26,7 +26,7 @@ def run(ctx):
     mon.judge_limits = True
     mon.attach_transform()
     path = os.path.join(ctx.tmpdir, 'c07.fcs')
-    n = 250 if ctx.tier == 'quick' else 6000
+    n = 250 if ctx.tier == 'quick' else 60000
     for cid, rng in ctx.cases([('s', i) for i in range(n)]):
         mon.cid = cid
         D = int(rng.integers(2, 6))
@@ -77,4 +77,7 @@ def run(ctx):
                       nontrivial=True, distinct_key=core.digest(cid),
                       sample={'ranges': spec['ranges'], 'pne': spec['pne'], 'png': spec['png'], 'rfi_channels': chans,
                               'mef_channels': mchans, 'curves': [c.params for c in crv]} if cid[1] < 3 else None)
+    # the repository's own tests as a workload under the same monitors (their assertions are not the oracle)
+    from rv import suite_workload
+    suite_workload.run_repo_suite(ctx, mon, modules=('test_transform.py',))
     mon.detach()
